@@ -17,7 +17,8 @@ EXTENDS Quote, TLC
 
 CONSTANT Defects     \* subset of DefectNames
 DefectNames == {"ShortEqByteOffset",      \* splitOption tests byte offset 1 instead of the second character
-                "ChoiceOnFlagPanics"}     \* Option.Set dereferences a nil value when choices are declared on a flag
+                "ChoiceOnFlagPanics",     \* Option.Set dereferences a nil value when choices are declared on a flag
+                "StaleActive"}            \* Command.Active is not reset when a parser is used for a second ParseArgs
 Defect(x) == x \in Defects
 
 ---------------------------------------------------------------------------
@@ -65,11 +66,11 @@ OptString(d, od) ==
 
 FlagLike(od) == od.kind \in {"flag", "counter", "ptrflag", "func0", "help"}      \* !canArgument (option.go:304-310)
 CanArgument(od) == ~FlagLike(od)
-SignedNumber(od) == od.kind \in {"scalar", "slice", "ptr"} /\ (IsSignedInt(od.vtype) \/ IsFloat(od.vtype) \/ od.vtype = "duration")
-MultiValued(od) == od.kind \in {"slice", "map", "counter"}
+SignedNumber(od) == od.kind \in {"scalar", "slice", "ptr", "sliceptr"} /\ (IsSignedInt(od.vtype) \/ IsFloat(od.vtype) \/ od.vtype = "duration")
+MultiValued(od) == od.kind \in {"slice", "map", "counter", "sliceptr"}
 
 \* zero value of a field as the harness reports it (a sequence of canonical texts)
-ZeroText(t) == CASE t = "string" -> E [] t = "um" -> E [] t = "bool" -> S_false [] t = "duration" -> <<48, 115>> [] OTHER -> <<48>>
+ZeroText(t) == CASE t = "string" -> E [] t = "um" -> E [] t = "bool" -> S_false [] t = "tb" -> S_false [] t = "duration" -> <<48, 115>> [] OTHER -> <<48>>
 ZeroVal(od) == IF od.kind = "scalar" THEN <<ZeroText(od.vtype)>> ELSE IF od.kind = "flag" THEN <<S_false>> ELSE <<>>
 
 \* the built-in help option that ParseArgs adds to every command when HelpFlag is set (parser.go:215-218)
@@ -102,9 +103,10 @@ S0(d, sc, ftab) ==
        isSet |-> [o \in 1..n |-> FALSE], isSetDef |-> [o \in 1..n |-> FALSE],
        prevDef |-> [o \in 1..n |-> FALSE], clearRef |-> [o \in 1..n |-> TRUE],
        events |-> <<>>, err |-> NoErr, perr |-> NoErr, out |-> [stdout |-> 0, stderr |-> 0],
-       phase |-> "loop", cl |-> <<>>, clArg |-> [has |-> FALSE, txt |-> E], clTok |-> E, clName |-> E,
+       phase |-> "start", active |-> [c \in 1..Len(d.cmds) |-> 0], cl |-> <<>>, clArg |-> [has |-> FALSE, txt |-> E], clTok |-> E, clName |-> E,
        clEq |-> [has |-> FALSE, txt |-> E], clPos |-> 0,
-       grey |-> FALSE, steps |-> 0, nerr |-> 0,
+       grey |-> FALSE, steps |-> 0, nerr |-> 0, ierr |-> [t |-> "none", line |-> 0],
+       readName |-> [o \in 1..n |-> E], iniQuote |-> [o \in 1..n |-> FALSE], quoteSeen |-> [o \in 1..n |-> FALSE],
        \* history variables (properties only)
        occ |-> <<>>, role |-> [i \in 1..Len(sc.argv) |-> "pending"], hmod |-> FALSE ]
 
@@ -163,11 +165,14 @@ ApplySet(s, o, hasVal, txt, src) ==
        LET s2 == [s1 EXCEPT !.events = Append(@, [k |-> "call", o |-> o, has |-> FALSE, arg |-> E])] IN
        IF CallFails(od, E) THEN [s2 EXCEPT !.perr = Err("foreign", E)] ELSE s2
   ELSE IF conv.unspec THEN [fail(Err("foreign", E)) EXCEPT !.grey = TRUE]
-  ELSE IF ~conv.ok THEN fail(Err("foreign", E))
+  ELSE IF ~conv.ok THEN
+       \* a nil pointer is allocated before its target is converted (convert.go:302-307): it stays allocated, holding the zero value
+       IF od.kind \in {"ptr", "ptrflag"} /\ s1.val[o] = <<>> THEN [fail(Err("foreign", E)) EXCEPT !.val[o] = <<ZeroText(IF od.kind = "ptrflag" THEN "bool" ELSE od.vtype)>>]
+       ELSE fail(Err("foreign", E))
   ELSE IF od.kind = "func1" THEN
        LET s2 == [s1 EXCEPT !.events = Append(@, [k |-> "call", o |-> o, has |-> TRUE, arg |-> conv.v])] IN
        IF CallFails(od, conv.v) THEN [s2 EXCEPT !.perr = Err("foreign", E)] ELSE s2
-  ELSE IF od.kind \in {"slice", "counter"} THEN [s1 EXCEPT !.val[o] = Append(@, conv.v)]
+  ELSE IF od.kind \in {"slice", "counter", "sliceptr"} THEN [s1 EXCEPT !.val[o] = Append(@, conv.v)]
   ELSE IF od.kind = "map" THEN [s1 EXCEPT !.val[o] = MapPut(@, MapKey(t), conv.v)]
   ELSE [s1 EXCEPT !.val[o] = <<conv.v>>]
 
@@ -249,6 +254,12 @@ AfterOption(s, tok, tokpos, name, hasArg, arg) ==
 
 Pop(s) == [s EXCEPT !.args = Tail(@), !.cur = Head(s.args)]
 
+\* --- entry of ParseArgs (parser.go:205-234): completion mode branches off before the loop and executes nothing
+Enabled_Start(s) == s.phase = "start"
+Apply_Start(s) ==
+  IF s.sc.completion # E THEN [s EXCEPT !.phase = "done"]
+  ELSE [s EXCEPT !.phase = "loop"]
+
 \* --- Terminator (parser.go:247-252)
 Enabled_Terminator(s) == s.phase = "loop" /\ s.args # <<>> /\ HasOpt(s, "PassDoubleDash") /\ Head(s.args) = <<DASH, DASH>>
 Apply_Terminator(s) ==
@@ -277,7 +288,7 @@ Enabled_NonOptCommand(s) == NonOpt(s) /\ ~Enabled_PassAfterNonOption(s) /\ CmdLo
 Apply_NonOptCommand(s) ==
   LET s1 == Pop(s)
       c == Resolve(s.d, s.cmd, s1.cur) IN
-  SetRole([s1 EXCEPT !.cmd = c, !.chain = Append(@, c),
+  SetRole([s1 EXCEPT !.cmd = c, !.chain = Append(@, c), !.active[s.cmd] = c,
                      !.posq = [i \in 1..Len(s.d.cmds[c].args) |-> [c |-> c, i |-> i]],
                      !.scope = ScopeSeq(s.opts, s.d, c)], CurPos(s1), "command")
 
@@ -386,8 +397,12 @@ Apply_ApplyDefaults(s) ==
   ELSE [FoldLeft(DefaultOne, s, AllOptsOrder(s)) EXCEPT !.phase = "required"]
 
 \* checkRequired (parser.go:379-477)
+\* the chain the required check walks: parser -> Active -> Active ... (parser.go:384-394).  On a parser that is used
+\* for the first time this is s.chain; see ParseArgsCall for a second use
+RECURSIVE ActiveChain(_, _)
+ActiveChain(s, c) == IF s.active[c] = 0 THEN <<c>> ELSE <<c>> \o ActiveChain(s, s.active[c])
 MissingOpts(s) == SelectSeq(FoldLeft(LAMBDA acc, c : acc \o SelectSeq([i \in 1..Len(s.opts) |-> i], LAMBDA o : s.opts[o].cmd = c),
-                                      <<>>, s.chain),
+                                      <<>>, ActiveChain(s, 1)),
                             LAMBDA o : s.opts[o].required /\ ~s.isSet[o])
 UnmetArgs(s) ==
   SelectSeq(s.posq, LAMBDA h :
@@ -428,12 +443,12 @@ Apply_Return(s) ==
   ELSE [s EXCEPT !.phase = "done"]
 
 ---------------------------------------------------------------------------
-ActionNames == <<"Terminator", "PassAfterNonOption", "NonOptPositional", "NonOptCommand", "NonOptUnknownCommand",
+ActionNames == <<"Start", "Terminator", "PassAfterNonOption", "NonOptPositional", "NonOptCommand", "NonOptUnknownCommand",
                  "NonOptRest", "LongOpt", "ShortBegin", "ShortRune", "LoopEnd", "ApplyDefaults", "CheckRequired",
                  "DiagnoseCommand", "Dispatch", "SkipToReturn", "Return">>
 
 EnabledA(a, s) ==
-  CASE a = "Terminator" -> Enabled_Terminator(s) [] a = "PassAfterNonOption" -> Enabled_PassAfterNonOption(s)
+  CASE a = "Start" -> Enabled_Start(s) [] a = "Terminator" -> Enabled_Terminator(s) [] a = "PassAfterNonOption" -> Enabled_PassAfterNonOption(s)
     [] a = "NonOptPositional" -> Enabled_NonOptPositional(s) [] a = "NonOptCommand" -> Enabled_NonOptCommand(s)
     [] a = "NonOptUnknownCommand" -> Enabled_NonOptUnknownCommand(s) [] a = "NonOptRest" -> Enabled_NonOptRest(s)
     [] a = "LongOpt" -> Enabled_LongOpt(s) [] a = "ShortBegin" -> Enabled_ShortBegin(s) [] a = "ShortRune" -> Enabled_ShortRune(s)
@@ -442,7 +457,7 @@ EnabledA(a, s) ==
     [] a = "Dispatch" -> Enabled_Dispatch(s) [] a = "SkipToReturn" -> Enabled_SkipToReturn(s) [] a = "Return" -> Enabled_Return(s)
 
 ApplyA(a, s) ==
-  CASE a = "Terminator" -> Apply_Terminator(s) [] a = "PassAfterNonOption" -> Apply_PassAfterNonOption(s)
+  CASE a = "Start" -> Apply_Start(s) [] a = "Terminator" -> Apply_Terminator(s) [] a = "PassAfterNonOption" -> Apply_PassAfterNonOption(s)
     [] a = "NonOptPositional" -> Apply_NonOptPositional(s) [] a = "NonOptCommand" -> Apply_NonOptCommand(s)
     [] a = "NonOptUnknownCommand" -> Apply_NonOptUnknownCommand(s) [] a = "NonOptRest" -> Apply_NonOptRest(s)
     [] a = "LongOpt" -> Apply_LongOpt(s) [] a = "ShortBegin" -> Apply_ShortBegin(s) [] a = "ShortRune" -> Apply_ShortRune(s)
@@ -452,9 +467,24 @@ ApplyA(a, s) ==
 
 EnabledSet(s) == {i \in 1..Len(ActionNames) : EnabledA(ActionNames[i], s)}
 
+\* A ParseArgs call on a parser that already lived through earlier calls: the cells are kept (values, isSet,
+\* preventDefault), the loop state is fresh.  Intended: the active chain starts afresh too; the pinned code keeps the
+\* Active pointers of the earlier parse (switch StaleActive), which the required check and the help text then follow.
+ReuseState(s, argv) ==
+  LET n == Len(s.opts) IN
+  [s EXCEPT !.sc.argv = argv, !.args = argv, !.cur = E, !.retargs = <<>>,
+            !.posq = [i \in 1..Len(s.d.cmds[1].args) |-> [c |-> 1, i |-> i]],
+            !.cmd = 1, !.chain = <<1>>, !.scope = ScopeSeq(s.opts, s.d, 1),
+            !.active = IF Defect("StaleActive") THEN @ ELSE [c \in 1..Len(s.d.cmds) |-> 0],
+            !.clearRef = [o \in 1..n |-> TRUE],
+            !.events = <<>>, !.err = NoErr, !.perr = NoErr, !.out = [stdout |-> 0, stderr |-> 0],
+            !.phase = "start", !.cl = <<>>, !.steps = 0, !.nerr = 0,
+            !.occ = <<>>, !.role = [i \in 1..Len(argv) |-> "pending"], !.hmod = FALSE]
+
 \* the loop is deterministic: exactly one action is enabled until the parse is done
 Step(s) == LET i == CHOOSE i \in EnabledSet(s) : TRUE IN [ApplyA(ActionNames[i], s) EXCEPT !.steps = @ + 1]
 RECURSIVE Run(_)
 Run(s) == IF s.phase = "done" THEN s ELSE Run(Step(s))
+ParseArgsCall(s, argv) == Run(ReuseState(s, argv))
 
 =============================================================================
